@@ -138,6 +138,7 @@ type session struct {
 	model   *poolModel
 	closeFn func()
 	dir     string
+	closed  bool
 	raw     store.Store // the driver itself (s.st may be the yielding wrapper)
 	ys      *yieldStore
 	feeLog  []feeEntry // inputs of WithdrawFee (pre-fee totals), in call order
@@ -302,6 +303,10 @@ func (s *session) reopen(t interface{ Fatalf(string, ...interface{}) }) {
 }
 
 func (s *session) close() {
+	if s.closed {
+		return
+	}
+	s.closed = true
 	for _, a := range s.agents {
 		for _, c := range a.conns {
 			if c.open {
@@ -349,7 +354,7 @@ func (s *session) openConn(i int, addr string) *agentConn {
 	if addr == "" {
 		addr = fmt.Sprintf("203.0.113.%d:%d", 10+i, 40000+id)
 	}
-	ac.c = dial(s.srv, ac.svc.server(), addr, s.pool.CloseRemote)
+	ac.c = dial(s.srv, ac.svc.handler(), addr, s.pool.CloseRemote)
 	a.conns = append(a.conns, ac)
 	return ac
 }
